@@ -71,6 +71,8 @@ def _registered_key_sources(fn, table):
 def run(repo, rep):
     from ..pitfalls import memo_rule as _memo_rule
     _memo_rule(repo, rep, 'C11', 'C11.Z1')
+    from ..pitfalls import log_rule as _log_rule
+    _log_rule(repo, rep, 'C11', 'C11.Z2')
     hier = exc_hierarchy(repo)
     ae = repo.cls('applicationentity', 'AEBase')
     rq = repo.cls('asceprovider', 'AssociationRequester')
